@@ -181,9 +181,15 @@ def run(ctx):
     h = ctx.compile_harness("c15_dumpload.cc")
     wd = ctx.workdir()
     quick = ctx.tier == "quick"
+    seed_used, len_used = ctx.seed, ("8" if quick else "12")
     if ctx.replay:
+        # re-run the one history named by a replay file (harness_args carry seed, length and case id)
         rp = json.load(open(ctx.replay))
-        args = rp.get("harness_args") or ["--seed", str(rp.get("seed", ctx.seed)), "--first", str(rp["case"]), "--last", str(rp["case"] + 1)]
+        args = rp.get("harness_args") or ["--seed", str(rp.get("seed", ctx.seed)), "--len", "8", "--first", str(rp["case"]), "--last", str(rp["case"] + 1)]
+        if "--seed" in args:
+            seed_used = int(args[args.index("--seed") + 1])
+        if "--len" in args:
+            len_used = args[args.index("--len") + 1]
         n_cases = 1
     else:
         n_cases = 16000 if quick else 200000
@@ -198,7 +204,7 @@ def run(ctx):
     journal = open(jpath, errors="replace").read().splitlines()
     cases, fails, sums, states, crashes = parse_journal(journal)
     sites = Sites(tabs)
-    base_args = ["--seed", str(ctx.seed), "--len", "8" if quick else "12"]
+    base_args = ["--seed", str(seed_used), "--len", len_used]
 
     def replay_obj(f, extra=None):
         o = {"case": f["case"], "class": f["class"], "receiver": f["recv"], "what": f["what"], "detail": f["detail"][:600],
@@ -270,6 +276,8 @@ def run(ctx):
         ctx.violation("model does not describe the real %s text (%s): %s | event: %s" % (kind, ob, detail[:300], ev[:300]),
                       {"event": ev[:2000], "obligation": ob, "detail": detail[:1000]}, found_input=False,
                       record={"site": "model:" + kind, "tags": [ob]})
+    if not quick and not broken:
+        broken += ctx.leanchecker(["PPLV.Props.C15"])
     for b in broken:
         ctx.violation("proof obligation broken: " + b, {"obligation": b}, found_input=False)
 
@@ -322,3 +330,12 @@ def run(ctx):
         "Polyhedron / Grid / shape / powerset / product / MIP / PIP bodies beyond the modelled sub-grammars are covered by the real round trips only",
         "'every internal state' of the C++ objects = the states reached by the seeded histories (reported per class in status_states_reached)",
     ]
+
+
+def replay(ctx, path):
+    """bin/check C15 --replay <file>: re-run the recorded history on the current tree and judge it again
+    (prints VIOLATION / KNOWN-FINDING as a full run would; the evidence file is left alone)."""
+    ctx.replay = path
+    run(ctx)
+    print("replayed %s: %d violation(s), %d known finding(s)" % (path, len(ctx.violations), len(ctx.known_hits)))
+    return 1 if ctx.violations else 0
